@@ -104,6 +104,8 @@ def _record_shipped(path: str, tier: str, prop: str, res: Result, early=None) ->
     stateful = drivers.xor_state_inputs()
     inputs += stateful
     inputs += drivers.CONTEXT_ONLY + drivers.twice()
+    parts = drivers.parts_with_payload()
+    inputs += parts + parts + parts            # each at three small depth limits (below)
     from .props_net import url_lattice, win_lattice      # decoders that pre-assemble children: spans inside a rewritten value
 
     wl, ul = win_lattice(rng, tier), url_lattice(rng, tier)
@@ -122,12 +124,16 @@ def _record_shipped(path: str, tier: str, prop: str, res: Result, early=None) ->
     ks = [-1, 0, 1, 2, 3, 9, 10, 11]
     n = 0
     deferred: list[dict] = []
+    seen_parts: dict[bytes, int] = {}
     with open(path, "w") as f:
         for i, data in enumerate(inputs):
             rec = full if (i % 4 == 0 or data in kw_inputs) else light
             k = 10 if (rng.random() < 0.5 or data in drivers.KNOWN_TRIGGERS or i < len(lits)) else rng.choice(ks)
             if data in stateful:
                 k = 2 + stateful.index(data) % 3
+            if data in parts:
+                seen_parts[data] = seen_parts.get(data, 0) + 1
+                k = 1 + seen_parts[data] + parts.index(data) % 2          # 2..5
             late = False
             tr = rec.scan(data, k, lo=(prop == "C07"), subs=(prop == "C08"), lo_first=(i % 2 == 1 or data in stateful), defer_subs=late, prepared=(i % 5 == 4))
             tr["origin"] = "shipped"
@@ -169,7 +175,7 @@ def run(prop: str, tier: str) -> int:
     ]
     early = _early_stateful() if prop == "C08" else None
     # 1. the specification itself
-    engine.model_check(res, ["q"] if tier == "quick" else ["q", "t3", "t4", "t2", "n4", "c4"])
+    engine.model_check(res, ["q", "h3"] if tier == "quick" else ["q", "t3", "t4", "t2", "n4", "c4", "h3"])
     if prop in ASIS_BREAKS:
         engine.non_vacuity(res, ASIS_BREAKS[prop])
     res.coverage["properties_checked_by_tlc"] = INV_OF[prop]
@@ -191,8 +197,11 @@ def run(prop: str, tier: str) -> int:
         p5 = os.path.join(work, "worlds-c4.ndjson")
         _t, n5 = engine.replay_worlds("c4", 1500, p5, lo=(prop == "C07"), subs=(prop == "C08"))
         jobs.append((p5, n5))
+        p6 = os.path.join(work, "worlds-h3.ndjson")
+        _t, n6 = engine.replay_worlds("h3", 1000, p6, lo=(prop == "C07"), subs=(prop == "C08"))
+        jobs.append((p6, n6))
     if tier == "thorough":
-        for fam in ("t3", "t4", "t2", "n4", "c4"):
+        for fam in ("t3", "t4", "t2", "n4", "c4", "h3"):
             p2 = os.path.join(work, f"worlds-{fam}.ndjson")
             _t, n2 = engine.replay_worlds(fam, 15000, p2, lo=(prop == "C07"), subs=(prop == "C08"))
             jobs.append((p2, n2))
